@@ -893,6 +893,12 @@ func (x *Exec) condSwapElems(st *State, s *SliceV, i, j int, c *Term) {
 	x.setSliceArr(st, s, &StructV{F: f})
 }
 
+func (x *Exec) canIteElems(st *State, s *SliceV, i, j int) bool {
+	arr := x.sliceArr(st, s)
+	_, ok := x.tryIte(x.tf.Var("!probe", SBool), arr.F[s.Off+i], arr.F[s.Off+j])
+	return ok
+}
+
 func sortSlice(x *Exec, st *State, fr *Frame, args []Value, site ssa.Instruction) []Result {
 	s := args[0].(*IfaceV).V.(*SliceV)
 	less := args[1]
@@ -908,7 +914,26 @@ func sortSlice(x *Exec, st *State, fr *Frame, args []Value, site ssa.Instruction
 			for _, s0 := range states {
 				rs := x.callValue(s0, fr, less, []Value{x.tf.BV(uint64(j+1), 64), x.tf.BV(uint64(j), 64)}, site)
 				for _, r := range rs {
-					x.condSwapElems(r.St, s, j, j+1, r.Val.(*Term))
+					c := r.Val.(*Term)
+					if !c.IsConst() && !x.canIteElems(r.St, s, j, j+1) {
+						// elements are pointers or differently shaped: fork on the comparison
+						rt, rf := x.satBoth(r.St, c)
+						if rt != "unsat" {
+							s1 := r.St
+							if rf != "unsat" {
+								s1 = r.St.clone()
+							}
+							s1.addPC(c)
+							x.condSwapElems(s1, s, j, j+1, x.tf.True)
+							next = append(next, s1)
+						}
+						if rf != "unsat" {
+							r.St.addPC(x.tf.Not(c))
+							next = append(next, r.St)
+						}
+						continue
+					}
+					x.condSwapElems(r.St, s, j, j+1, c)
 					next = append(next, r.St)
 				}
 			}
